@@ -9,7 +9,7 @@ RULE = ("valid messages of the C01/C02 space (own encoder) mutated at the data-s
         "octet class, bit flips, random tails, wrong subset counts incl. 0 and 65535, compression flag toggled, "
         "descriptor lists with unknown/ill-formed/huge-replication descriptors) and at the message level (section "
         "lengths, total length, truncation, nested start markers, random bytes); pure random byte strings; compressed "
-        "data whose delayed replication factors differ between subsets; data present bit-map templates (implementation only). "
+        "data whose delayed replication factors differ between subsets; data present bit-map templates and the repository's sample messages, damaged (implementation only). "
         "distinct = distinct (mutation kind, outcome class)")
 ASSUMPTIONS = c01.ASSUMPTIONS + ["the process is the harness: exit() is intercepted at link time, the abort handler is the application's"]
 P = c01.P
@@ -162,6 +162,37 @@ def bitmap_scenarios(rng, n):
         out.append(Scenario("dpbm-%d" % i, ls, {"kind": "bitmap-" + kind, "tables": name, "nomodel": True}))
     return out
 
+def sample_scenarios(rng, per_file):
+    """the repository's sample messages (Test/BUFR: data present bit-maps, 2 06/2 07, local descriptors, compressed
+    data), damaged at the message level: implementation only (`nomodel`)"""
+    import glob, os
+    from vlib import tables
+    out = []
+    files = sorted(f for f in glob.glob(os.path.join(tables.REPO, "Test/BUFR/*.bufr")) if os.path.getsize(f) <= 9000)
+    for f in files:
+        m0 = open(f, "rb").read()
+        for j in range(per_file):
+            m = bytearray(m0)
+            kind = rng.choice(["ok", "flip", "flip", "flip8", "trunc", "zero-run", "ones-run", "s4-rand"]) if j else "ok"
+            if kind == "flip":
+                i = rng.randrange(len(m)); m[i] ^= 1 << rng.randrange(8)
+            elif kind == "flip8":
+                for _ in range(8):
+                    i = rng.randrange(len(m)); m[i] ^= 1 << rng.randrange(8)
+            elif kind == "trunc":
+                m = m[:rng.randrange(8, len(m))]
+            elif kind in ("zero-run", "ones-run"):
+                i = rng.randrange(len(m)); k = rng.choice([1, 2, 4, 16])
+                m[i:i + k] = bytes([0 if kind == "zero-run" else 255] * len(m[i:i + k]))
+            elif kind == "s4-rand":
+                i = rng.randrange(len(m) // 2, len(m))
+                for q in range(i, min(len(m), i + rng.choice([2, 8, 40]))):
+                    m[q] = rng.randrange(256)
+            ls = ["T.use " + rng.choice(["cur", "cur", "loc"]), "ds.decodemsg " + bytes(m).hex(), "dd.list 0", "dd.vals 0", "dd.vals 1"]
+            out.append(Scenario("sample-%s-%d-%s" % (os.path.basename(f)[:-5], j, kind), ls,
+                                {"kind": "sample-" + kind, "tables": "cur", "nomodel": True}))
+    return out
+
 def scenarios(rng, tier, runner):
     n = 160 if tier == "quick" else 3000
     stage1 = []
@@ -198,6 +229,7 @@ def scenarios(rng, tier, runner):
             out.append(Scenario("msg-%s-%s" % (kind, s.name), ls, {"kind": kind, "tables": s.meta["tables"]}))
     out += factor_scenarios(rng, 120 if tier == "quick" else 2500)
     out += bitmap_scenarios(rng, 250 if tier == "quick" else 6000)
+    out += sample_scenarios(rng, 6 if tier == "quick" else 150)
     return out
 
 def _outside_model(scn):
